@@ -42,7 +42,7 @@ def own_row_info(ctx, M, body, ipterm):
         if st[0] == "field":
             idx = st[1]
     cdef = closure_def_of(qs[0][2][3]) if len(qs[0][2]) > 3 else None
-    info = closure_row_columns(ctx.P, cdef) if cdef else None
+    info = closure_row_columns(ctx.P, cdef, site.stmt) if cdef else None
     col = None
     if info and idx is not None and idx in info[1]:
         ci = info[1][idx]
